@@ -35,6 +35,17 @@ fn generate_char_fn_ranges(f: fn(char) -> bool) -> Vec<(u32, u32)> {
     ranges
 }
 
+/// Entry points for the external verification harness (`--cfg lexgen_verif` only).
+#[cfg(lexgen_verif)]
+pub fn verif_generate_char_fn_ranges(f: fn(char) -> bool) -> Vec<(u32, u32)> {
+    generate_char_fn_ranges(f)
+}
+
+#[cfg(lexgen_verif)]
+pub fn verif_fns() -> &'static [(fn(char) -> bool, &'static str)] {
+    &FNS
+}
+
 macro_rules! ascii_fn {
     ($x:ident) => {
         fn $x(c: char) -> bool {
